@@ -45,7 +45,14 @@ fn parse_scheme_line(w: &[&str]) -> Option<SchemeSpec> {
         fields,
         funcs,
         lists,
-        nil_ne: w[1] == "1",
+        nil_ne: w[1].starts_with('1'),
+        route: match &w[1][1.min(w[1].len())..] {
+            "" => 0,
+            "a" => 1,
+            "b" => 2,
+            "c" => 3,
+            _ => return None,
+        },
         max_depth: w[2].parse().ok()?,
         star_limit: if w[3] == "-" { None } else { Some(w[3].parse().ok()?) },
     })
@@ -83,7 +90,7 @@ fn parse_ctx_line(w: &[&str], nfields: usize) -> Option<CtxSpec> {
 
 impl Core {
     pub fn new() -> Self {
-        let spec = SchemeSpec { fields: vec![], funcs: vec![], lists: vec![], nil_ne: true, max_depth: 128, star_limit: None };
+        let spec = SchemeSpec { fields: vec![], funcs: vec![], lists: vec![], nil_ne: true, route: 0, max_depth: 128, star_limit: None };
         let scheme = spec.build();
         Core { spec, scheme, ctxspec: CtxSpec::default(), ctx: None }
     }
